@@ -165,7 +165,7 @@ class Shape:
         raise ValueError(n)
 
 
-SUFFIXES = ["conf", "ini", "cfg2x", "conf.local"]      # (the last one: a suffix with a dot inside)
+SUFFIXES = ["conf", "ini", "cfg2x", "conf.local", "x1"]      # (a dot inside; two characters; FIVE entries: the cases of one driver process are every 16th, the rotation must not have a period that divides 16)
 CFGNAMES = ["cfg", "cfg", "a.b", "cfg", "x y", "cfg", "n=1", "org.example.app", "cfg"]     # (period 9 against the suffixes' 4)
 
 
